@@ -60,6 +60,7 @@ func IsFloatKind(k string) bool { return k == KFloat32 || k == KFloat64 }
 // Leaf is a destination leaf value (a Default, a Catch, a test parameter).
 type Leaf struct {
 	Kind string
+	L    []Leaf // Kind == KSlice: a nested slice value (defaults of slices of slices)
 	S    string
 	I    int64
 	F    float64
